@@ -680,6 +680,16 @@ def run_life(seed, role, cause, point, blocked_consumer, restart=True, hook=None
             sc.run(until=lambda: n.state() == "Closing", limit=4000)
         # a few random steps so that the fault lands at an arbitrary point
         sc.run(limit=rng.randint(0, 60), timers=False)
+        # "Closed implies the transport has been released": what the application sees at ANY moment, not only at the end
+        watch = {"left": n.state() != "Closed", "bad": None}
+
+        def on_step(_t):
+            st = n.state()
+            if st != "Closed":
+                watch["left"] = True
+            elif watch["left"] and watch["bad"] is None and not n.sock.closed:
+                watch["bad"] = "the node reported Closed while its socket was still open (the transport had not been released yet)"
+        sc.s.on_step = on_step
         # the termination cause
         if cause == "local" and n.state() not in ("Closed",):
             def closer():
@@ -723,8 +733,11 @@ def run_life(seed, role, cause, point, blocked_consumer, restart=True, hook=None
             end = "deadlock: " + str(e)
         except (vsched.StepLimit, vsched.StepHang) as e:
             end = type(e).__name__ + ": " + str(e)
+        sc.s.on_step = None
         if isinstance(end, str) and end.startswith(("deadlock", "Step")):
             problems.append(end[:400])
+        if watch["bad"]:
+            problems.append(watch["bad"])
         if n.state() != "Closed":
             problems.append(f"state is {n.state()}, not Closed")
         alive = [t.name for t in sc.s.threads if not t.done]
@@ -971,8 +984,30 @@ def cex_with_vendor_257(n):
     return m.dump()
 
 
+def deep_nesting(levels):
+    body = b""
+    for _ in range(levels):
+        body = (279).to_bytes(4, "big") + b"\x40" + (8 + len(body)).to_bytes(3, "big") + body
+    return body
+
+
+def flip_v_bit(raw, code):
+    """set the V bit in the flags of the first AVP with this code in a single-message stream"""
+    b = bytearray(raw)
+    i = 20
+    while i + 8 <= len(b):
+        ln = int.from_bytes(b[i + 5:i + 8], "big")
+        if int.from_bytes(b[i:i + 4], "big") == code:
+            b[i + 4] |= 0x80
+            return bytes(b)
+        if ln < 8:
+            break
+        i += ln + (-ln % 4)
+    return bytes(b)
+
+
 def garbage_segments(n, rng):
-    good = n.make("REQ", True, 1).dump()
+    good = n.make("REQ", True, 1, variant=1).dump()          # (with a Destination-Host AVP)
     u32x5 = bytes.fromhex("0000010c4000000d0000000001000000")
     bad_enum = bytes.fromhex("00000115400000") + b"\x0c" + b"\x00\x00\x00\x63"        # Auth-Session-State = 99
     def wrap(body, cmd=316, app=16777251, flags=0x80):
@@ -993,6 +1028,13 @@ def garbage_segments(n, rng):
         # well-formed base messages whose Origin-Host / Origin-Realm is not text (DiameterIdentity is an OctetString on the wire)
         "dwr-origin-host-not-utf8": n.make("DWR", True, 1).dump().replace(n.peer[0].encode(), b"\xff" * len(n.peer[0])),
         "cex-origin-realm-not-utf8": n.make("CER" if n.role == "server" else "CEA", True, 1).dump().replace(n.peer[1].encode(), b"\xfe" * len(n.peer[1])),
+        # Grouped AVPs nested far deeper than the interpreter can follow (600 levels of Failed-AVP, 4.8 kB)
+        "deep-nesting": wrap(deep_nesting(600)),
+        # a request whose Destination-Host / Destination-Realm AVP has the V bit set (one flipped bit: four octets of the value
+        # are read as a Vendor-ID, the AVP is nobody's Destination-Host any more)
+        "request-dest-host-v-bit": flip_v_bit(good, 293),
+        "request-dest-realm-v-bit": flip_v_bit(good, 283),
+        "misaddressed-dest-host-v-bit": flip_v_bit(n.make("MIS", True, 1).dump(), 293),
         # a well-formed capabilities exchange in which another vendor's AVP uses code 257 (Host-IP-Address) with two data octets
         "cex-vendor-avp-code-257": cex_with_vendor_257(n),
         "bad-utf8-uri": wrap((292).to_bytes(4, "big") + b"\x40" + (14).to_bytes(3, "big") + b"aaa:\xff\xfe\0\0"),
@@ -1097,7 +1139,7 @@ def run_garbage(seed, role, state, kind):
 def check_garbage(rep):
     rng = random.Random(rep.seed * 7919 + 33)
     kinds = ["length0", "length19", "short-header", "truncated", "avp-length-too-big", "avp-length-zero", "u32-five-bytes", "unknown-enumerator",
-             "misaddressed", "misaddressed-not-utf8-host", "misaddressed-not-utf8-realm", "dwr-origin-host-not-utf8", "cex-origin-realm-not-utf8", "cex-vendor-avp-code-257", "bad-utf8-uri", "random", "garbage-then-good", "good-then-length0", "good-then-length19", "good-then-random", "dwr-then-length0",
+             "misaddressed", "misaddressed-not-utf8-host", "misaddressed-not-utf8-realm", "dwr-origin-host-not-utf8", "cex-origin-realm-not-utf8", "cex-vendor-avp-code-257", "deep-nesting", "request-dest-host-v-bit", "request-dest-realm-v-bit", "misaddressed-dest-host-v-bit", "bad-utf8-uri", "random", "garbage-then-good", "good-then-length0", "good-then-length19", "good-then-random", "dwr-then-length0",
              "answer-known-e2e-unknown-hbh"]
     cases = [("client", "open"), ("server", "open"), ("client", "wait-cea"), ("server", "before-cer"), ("client", "closing")]
     reps = 1 if rep.tier == "quick" else 10
